@@ -243,7 +243,7 @@ Theorem ghist_ok_b_spec : forall ops g outs, ghist_ok_b g ops outs = true <-> gh
 Proof.
   induction ops as [|o ops IH]; intros g outs.
   - cbn [ghist_ok_b ghist_spec]. destruct outs; split; intros H; try reflexivity; discriminate.
-  - destruct o as [a b|a l|req]; cbn [ghist_ok_b ghist_spec]; [apply IH | apply IH |].
+  - destruct o as [a b|a l|req|a e]; cbn [ghist_ok_b ghist_spec]; [apply IH | apply IH | | apply IH].
     destruct outs as [|out outs]; [split; [discriminate|tauto]|].
     rewrite andb_true_iff, topo_ok_b_spec, IH. tauto.
 Qed.
@@ -270,9 +270,7 @@ Theorem graph_history_correct : forall ops g,
   exists outs, grun ord g ops = map Some outs /\ ghist_spec g ops outs.
 Proof.
   induction ops as [|o ops IH]; intros g; [exists []; split; reflexivity|].
-  destruct o as [a b|a l|req]; cbn [grun ghist_spec].
-  - apply IH.
-  - apply IH.
+  destruct o as [a b|a l|req|a e]; cbn [grun ghist_spec]; [apply IH | apply IH | | apply IH].
   - destruct (IH g) as (outs & E & Hs).
     destruct (topo_total (gord ord g) (ord req)) as (out & Ho).
     exists (out :: outs). cbn [map]. rewrite Ho, E. split; [reflexivity|]. split; [|exact Hs].
